@@ -379,6 +379,54 @@ Definition solve_T_at_HP_ws (loaded : workspace) aitken secant tol H Tguess Hm C
 Definition solve_T_at_SP_ws (loaded : workspace) expf aitken secant tol S Tguess Sm Cnm : res Q * workspace :=
   with_workspace loaded (fun _ => solve_T_at_SP expf aitken secant tol S Tguess Sm Cnm).
 
+(* ------------------------------------------------------------------ phase sub-streams and moving material between phases *)
+(* MultiStream.__getitem__(phase): a Stream whose flows ARE the row of that phase (same SparseVector object) and whose
+   thermal condition IS the MultiStream's; its phase label is the one asked for.  Stream.__getitem__(key) is the
+   stream itself when key.lower() == phase.lower().  The value of such a view when a call starts: *)
+Definition lowerp (p : phase) : phase := match p with 1%nat => 4%nat | 2%nat => 5%nat | _ => p end.
+Definition view (s : stream) (p : phase) : res stream :=
+  if multi s then
+    match find (fun pv => (fst pv =? target_phase (phases s) p)%nat) (pm s) with
+    | Some pv => Ok (mkS false [(p, snd pv)] (sT s) (sP s))
+    | None => Err EUndefPhase
+    end
+  else if (lowerp p =? lowerp (phase1 s))%nat then Ok s
+  else Err EOther.      (* `raise tmo.UndefinedPhase(phase)`: thermosteam has no such attribute, so this is an AttributeError *)
+(* rows[p2] += k * rows[p1]; rows[p1] -= k * rows[p1]  (T, P and the overall composition do not change) *)
+Definition move_phase (s : stream) (p1 p2 : phase) (k : Q) : stream :=
+  match find (fun pv => (fst pv =? p1)%nat) (pm s) with
+  | Some pv1 =>
+      let d := vscale k (snd pv1) in
+      mkS (multi s)
+          (map (fun pv => if (fst pv =? p1)%nat then (fst pv, vsub (snd pv) d)
+                          else if (fst pv =? p2)%nat then (fst pv, vadd (snd pv) d) else pv) (pm s))
+          (sT s) (sP s)
+  | None => s
+  end.
+(* Stream.separate_out(other) where other is the phase view [p] of stream [j] (possibly of the receiver itself: then
+   other shares its flow data with self without being self).  The call reads other.H and other's flows before it
+   changes anything, so the view enters with the value it has when the call starts. *)
+Definition separate_view (O : oracles) (st : store) (r j : nat) (p : phase) : res store :=
+  do sj <- sget st j;
+  do v <- view sj p;
+  do st' <- separate_out O (st ++ [v]) r (length st);
+  Ok (firstn (length st) st').
+
+(* Stream.mix_from with phase views among the inlets (views first): every read of a view that mix_from makes (its H,
+   its emptiness, its pressure, its flows for imol.mix_from / copy_like) sees the value the view has when the call
+   starts, except the second imol.mix_from of the convert-to-multi-phase fallback when the view belongs to the receiver
+   (not generated) *)
+Fixpoint views (st : store) (vs : list (nat * phase)) : res (list stream) :=
+  match vs with
+  | [] => Ok []
+  | (j, p) :: t => do sj <- sget st j; do v <- view sj p; do r <- views st t; Ok (v :: r)
+  end.
+Definition mix_views (O : oracles) (st : store) (r : nat) (vs : list (nat * phase)) (others : list inlet) (Q0 : Q) : res store :=
+  do vstreams <- views st vs;
+  let ot := map IStream (seq (length st) (length vstreams)) ++ others in
+  do st' <- mix_from O (st ++ vstreams) r ot Q0;
+  Ok (firstn (length st) st').
+
 (* ------------------------------------------------------------------ the per-stream property memo and handles *)
 (* _property_cache (dict name -> value per unit flow) and _property_cache_key (mutable 2-list [literal, composition])
    belong to the stream's data: Stream.proxy() hands BOTH objects to the proxy, together with the flows and the
@@ -424,6 +472,8 @@ Definition get_prop (O : oracles) (name : nat) (flow : bool) (c : cell) : option
 Definition get_plain (O : oracles) (name : nat) (flow : bool) (c : cell) : option Q * cell :=
   ((if flow then Some (prop_flow (pname O name) (cs c)) else prop_spec (pname O name) (cs c)), c).
 
+Definition tval (O : oracles) (name : nat) (flow : bool) (s : stream) : option Q :=
+  if flow then Some (prop_flow (pname O name) s) else prop_spec (pname O name) s.
 Definition reader := nat -> bool -> cell -> option Q * cell.
 
 (* ------------------------------------------------------------------ histories over handles *)
@@ -436,7 +486,11 @@ Inductive hop :=
 | HSet (h : nat) (which : nat) (x : Q)              (* 0: s.H = x, 1: s.S = x, 2: s.h = x, 3: s.Hnet = x *)
 | HSetCur (h : nat) (which : nat)                   (* s.H = s.H, ... : the value comes from the getter *)
 | HMix (h : nat) (others : list inlet) (Q0 : Q)     (* handles inside [others] *)
-| HSep (h o : nat).
+| HSep (h o : nat)
+| HMove (h : nat) (p1 p2 : phase) (k : Q)           (* material moved between the phases of a MultiStream *)
+| HReadView (h : nat) (p : phase) (name : nat) (flow : bool)   (* s[p].H ... (the view object has a memo of its own: not modelled) *)
+| HSepView (h o : nat) (p : phase)                  (* s.separate_out(t[p]), t possibly s itself *)
+| HMixV (h : nat) (vs : list (nat * phase)) (others : list inlet) (Q0 : Q).   (* s.mix_from([t[p], ...] + others, Q=Q0) *)
 Inductive obs := ONone | OVal (v : option Q) | OErr (e : option err) | OStop (e : err).
 Definition hstate := (list cell * list nat)%type.
 
@@ -521,6 +575,37 @@ Definition hstep (O : oracles) (rd : reader) (stt : hstate) (op : hop) : obs * h
             end
         | None => (ONone, stt)
         end)
+  | HMove h p1 p2 k => at_h h (fun i c => (ONone, (upd cells i (with_s c (move_phase (cs c) p1 p2 k)), hs)))
+  | HReadView h p name flow =>
+      at_h h (fun i c => match view (cs c) p with
+                         | Ok v => (OVal (tval O name flow v), stt)
+                         | Err e => (OStop e, stt)
+                         end)
+  | HSepView h o p =>
+      at_h h (fun i _ =>
+        match idx_of hs o with
+        | Some j =>
+            match separate_view O (map cs cells) i j p with
+            | Ok st' => (ONone, (set_streams (read_at rd cells i) st', hs))
+            | Err e => (OStop e, stt)
+            end
+        | None => (ONone, stt)
+        end)
+  | HMixV h vs others Q0 =>
+      at_h h (fun i _ =>
+        let vt := map (fun jp => (match nth_error hs (fst jp) with Some j => j | None => length cells end, snd jp)) vs in
+        let ot := tr_inlets hs others in
+        match mix_views O (map cs cells) i vt ot Q0 with
+        | Ok st' =>
+            (* memo reads: the inlets named by handles and the receiver (the view objects have memos of their own) *)
+            (ONone, (set_streams (firstn (length cells)
+                       (match views (map cs cells) vt with
+                        | Ok vstreams => mix_reads O rd (cells ++ map (fun s => mkCell s None) vstreams) i
+                                           (map IStream (seq (length cells) (length vstreams)) ++ ot) Q0
+                        | Err _ => cells
+                        end)) st', hs))
+        | Err e => (OStop e, stt)
+        end)
   end.
 
 (* a history; it ends at the first mix / separation that raises (the objects are then in an unspecified state) *)
@@ -538,8 +623,6 @@ Fixpoint hrun (O : oracles) (rd : reader) (stt : hstate) (ops : list hop) : list
 (* the same histories WITHOUT any memo: every read evaluates the property of the current state.  This is the
    specification machine; C02_history_memo_transparent says the real one (shared memo, handles) cannot be told apart *)
 Definition tstate := (store * list nat)%type.
-Definition tval (O : oracles) (name : nat) (flow : bool) (s : stream) : option Q :=
-  if flow then Some (prop_flow (pname O name) s) else prop_spec (pname O name) s.
 Definition tcur (O : oracles) (which : nat) (s : stream) : Q :=
   fst (cur_value O (get_plain O) which (mkCell s None)).
 Definition tstep (O : oracles) (stt : tstate) (op : hop) : obs * tstate :=
@@ -571,6 +654,27 @@ Definition tstep (O : oracles) (stt : tstate) (op : hop) : obs * tstate :=
                                      end
                          | None => (ONone, stt)
                          end)
+  | HMove h p1 p2 k => at_h h (fun i s => (ONone, (upd st i (move_phase s p1 p2 k), hs)))
+  | HReadView h p name flow =>
+      at_h h (fun i s => match view s p with
+                         | Ok v => (OVal (tval O name flow v), stt)
+                         | Err e => (OStop e, stt)
+                         end)
+  | HSepView h o p =>
+      at_h h (fun i _ => match idx_of hs o with
+                         | Some j => match separate_view O st i j p with
+                                     | Ok st' => (ONone, (st', hs))
+                                     | Err e => (OStop e, stt)
+                                     end
+                         | None => (ONone, stt)
+                         end)
+  | HMixV h vs others Q0 =>
+      at_h h (fun i _ =>
+        let vt := map (fun jp => (match nth_error hs (fst jp) with Some j => j | None => length st end, snd jp)) vs in
+        match mix_views O st i vt (tr_inlets hs others) Q0 with
+        | Ok st' => (ONone, (st', hs))
+        | Err e => (OStop e, stt)
+        end)
   end.
 Fixpoint trun (O : oracles) (stt : tstate) (ops : list hop) : list obs * tstate :=
   match ops with
@@ -620,11 +724,11 @@ Definition lin_S (c : stubp) (Tref : Q) : phase -> vec -> Q -> Q -> Q :=
   fun p v T P => vdot (cn_of c p) v * (T - Tref) / 256 + vdot (s0_of c p) v - vdot (kp_of c p) v * (P - Pref c) / 65536.
 Definition lin_solve (c : stubp) (Tref : Q) : pmol -> Q -> Q -> Q -> res Q := fun m h Tg P =>
   do r <- iter_T_at_HP Tg h (fun T => xsum (lin_H c Tref) m T P) (fun _ => lin_Cn c m) (O, None);
-  Ok (fst r).
+  Ok (Qred (fst r)).                 (* the same number in lowest terms: keeps the case files small *)
 (* entropy: the root in closed form (division by Cn = 0 raises as in iter_T_at_SP) *)
 Definition lin_solveS (c : stubp) (Tref : Q) : pmol -> Q -> Q -> Q -> res Q := fun m x Tg P =>
   if qzerob (lin_Cn c m) then Err EZeroDiv
-  else Ok (Tref + 256 * (x - lin_S0 c m + lin_K c m * (P - Pref c) / 65536) / lin_Cn c m).
+  else Ok (Qred (Tref + 256 * (x - lin_S0 c m + lin_K c m * (P - Pref c) / 65536) / lin_Cn c m)).
 Definition lin_oracles (c : stubp) (hf : vec) (Tref : Q) : oracles :=
   mkO (lin_H c Tref) (lin_S c Tref) (lin_solve c Tref) (lin_solveS c Tref) hf.
 
